@@ -77,6 +77,7 @@ def run(prop, tier, scenarios, check, bound, describe, cap=None, rule='', assump
     capped = 0
     noq = 0
     maxp = 0
+    pending = []
     order = range(len(_SCNS)) if flagsets is not None else sorted(range(len(_SCNS)), key=lambda i: -len(_SCNS[i].kinds) * 1000 - i)
     for r in common.pmap(_unit, order, chunksize=(64 if flagsets is not None else 1)):
         rep.add(traces_validated_against_impl=r['executions'], states=r['traces'], transitions=r['turns'], choice_points=r['choice_points'])
@@ -91,16 +92,42 @@ def run(prop, tier, scenarios, check, bound, describe, cap=None, rule='', assump
         maxp = max(maxp, r['max_points'])
         if r['sample']:
             rep.sample(r['sample'])
-        scn = _SCNS[r['i']]
         for choices, v in r['confirmed']:
-            feats = dict(scn.features)
-            feats = {k: x for k, x in feats.items() if not k.startswith('_')}
-            feats.update(v.get('features', {}))
-            feats['symptom'] = v['symptom']
-            feats['deviation_kinds'] = ''.join(sorted(set(
-                k for k in _dev_kinds(scn, choices))))
-            rep.violation(feats, {'scenario': scn.name, 'choices': list(choices), 'detail': v.get('detail'),
-                                  'instances': v.get('instances')})
+            pending.append((r['i'], choices, v))
+    # A violation must also reproduce in a FRESH process: workers are long-lived and run thousands of executions
+    # in one interpreter, so state that leaks between executions (in the SUT's modules or in the harness) can
+    # fake -- or hide -- a failure.  A few candidates are re-executed from their recorded choices in a new
+    # interpreter; if none of them fails there, nothing is reported (counted in the evidence instead).
+    fresh_ok = fresh_bad = 0
+    n_cand = len(pending)
+    kept = []
+    for k, (i, choices, v) in enumerate(pending):
+        if k >= 12:
+            # beyond the first dozen: kept iff the fresh process confirmed at least one of the dozen
+            if fresh_ok:
+                kept.append((i, choices, v))
+            continue
+        if _fresh_confirm(check, tier, _SCNS[i].name, choices, v):
+            fresh_ok += 1
+            kept.append((i, choices, v))
+        else:
+            fresh_bad += 1
+    rep.add(violation_candidates=n_cand, candidates_confirmed_in_a_fresh_process=fresh_ok,
+            candidates_not_reproduced_in_a_fresh_process=fresh_bad)
+    if fresh_bad:
+        print('WARNING: %d of %d violation candidate(s) found in the worker processes did not fail when re-executed in a '
+              'fresh process (not reported)' % (fresh_bad, n_cand))
+    pending = kept
+    for (i, choices, v) in pending:
+        scn = _SCNS[i]
+        feats = dict(scn.features)
+        feats = {k: x for k, x in feats.items() if not k.startswith('_')}
+        feats.update(v.get('features', {}))
+        feats['symptom'] = v['symptom']
+        feats['deviation_kinds'] = ''.join(sorted(set(
+            k for k in _dev_kinds(scn, choices))))
+        rep.violation(feats, {'scenario': scn.name, 'choices': list(choices), 'detail': v.get('detail'),
+                              'instances': v.get('instances')})
     rep.add(scenarios=len(_SCNS), deviation_bound=bound, deviations_applied_by_kind=dev,
             distinct_sut_io_traces=traces, unreproducible=unrepro, capped_scenarios=capped,
             executions_hitting_horizon=noq, max_choice_points_in_one_execution=maxp,
@@ -120,6 +147,56 @@ def run(prop, tier, scenarios, check, bound, describe, cap=None, rule='', assump
     if nondet and rc == 0:
         return 2
     return rc
+
+
+def _fresh_confirm(check, tier, name, choices, v):
+    """Re-execute one recorded failure in a new interpreter; True iff the same symptom shows there."""
+    import os
+    import subprocess
+    import sys
+    env = dict(os.environ)
+    env['VERIF_CONFIRM'] = json.dumps({'module': check.__module__, 'check': check.__name__, 'tier': tier, 'name': name,
+                                       'choices': list(choices), 'symptom': v['symptom']})
+    env['PYTHONHASHSEED'] = '0'
+    code = 'import sys; sys.path.insert(0, %r); from mc import netcheck; sys.exit(netcheck.confirm_entry())' % common.VERIF
+    try:
+        p = subprocess.run([sys.executable, '-c', code], env=env, cwd=common.VERIF, capture_output=True, timeout=900)
+    except subprocess.TimeoutExpired:
+        return True         # cannot tell: keep the candidate
+    if p.returncode not in (0, 3):
+        return True         # the confirmation itself failed to run: keep the candidate
+    return p.returncode == 0
+
+
+def confirm_entry():
+    import importlib
+    import os
+    a = json.loads(os.environ['VERIF_CONFIRM'])
+    common.bind_repo()
+    mod = importlib.import_module(a['module'])
+    scn = None
+    sources = []
+    for t in (a['tier'], 'thorough', 'quick'):
+        sources.append(lambda t=t: mod.scenarios(t))
+    if hasattr(mod, 'thorough_scenarios'):
+        sources.insert(1, mod.thorough_scenarios)
+    for src in sources:
+        try:
+            coll = src()
+        except Exception:   # noqa
+            continue
+        if hasattr(coll, 'by_name'):
+            scn = coll.by_name(a['name'])
+        else:
+            scn = next((x for x in coll if x.name == a['name']), None)
+        if scn is not None:
+            break
+    if scn is None:
+        return 4
+    netmc.install()
+    w = netmc.execute(scn, a['choices'])
+    out = getattr(mod, a['check'])(w) or []
+    return 0 if any(x.get('symptom') == a['symptom'] for x in out) else 3
 
 
 def _dev_kinds(scn, choices):
